@@ -8,13 +8,13 @@ From FositeModel Require Import Base.Str Model.Scope Model.Core Model.Flows Mode
 Theorem monitor_accepts_the_model e cfg s o :
   faultable o = true ->
   let '(s', ob, calls) := fstep e cfg s o in
-  (mon_panic ob = None -> mon_c (fe_tx e) calls = None) /\
+  mon_panic ob = None /\ mon_c (fe_tx e) calls = None /\
   mon_serial o calls ob = None /\
   (mon_b o calls ob = None \/ mon_b o calls ob = Some "tokens_issued_after_notfound_fault_on_pkce_lookup").
 Proof.
   intros Hf. pose proof (fstep_ok e cfg s o Hf) as H. destruct (fstep e cfg s o) as [[s' ob] calls].
-  destruct H as (H1 & H2 & H3 & _). repeat split; auto.
-  intros Hp. destruct H1 as [H1|H1]; [|exact H1]. unfold mon_panic, panicked in Hp. rewrite H1 in Hp. discriminate.
+  destruct H as (H1 & H2 & H3 & _ & _ & _ & _ & _ & Hp). repeat split; auto.
+  unfold mon_panic. now rewrite Hp.
 Qed.
 
 (* clause (d) of the monitor compares digests; equal tables and an equal log give equal status vectors *)
